@@ -141,6 +141,22 @@ def check_case(case):
         out.append(fail('freeze-equal', f'freeze({m!r}) -> {fz!r}', **facts))
     if freeze_message(fz) is not fz:
         out.append(fail('freeze-idempotent', 'freeze(frozen) is not the same object', **facts))
+    try:
+        fc = fz.copy()
+        fc2 = fz.copy(time=5)
+        if type(fc) is not type(fz) or type(fc2) is not type(fz) or not (fc == m) or fc2.time != 5:
+            out.append(fail('frozen-copy-class', f'copy of a {type(fz).__name__} gives {type(fc).__name__} / '
+                                                 f'{type(fc2).__name__}', **facts))
+        else:
+            hash(fc2)
+            try:
+                fc2.time = 6
+                out.append(fail('frozen-copy-class', 'the copy of a frozen message accepts assignment', **facts))
+            except OKEXC:
+                pass
+    except Exception as exc:  # noqa: BLE001
+        if not (t == 'sequencer_specific' and seq_list):
+            out.append(fail('frozen-copy-raises', f'{fz!r}.copy(): {exc!r}', exc=exc_sig(exc), **facts))
     fbase = snap(fz)
     for name in list(vars(fz)) + ['foo', 'type']:
         val = vars(fz).get(name, 1)
